@@ -38,19 +38,38 @@ Fixpoint zlist_eqb (a b : list Z) : bool :=
    admission, "recovered", recovered block signature and beacon value (as scalars) *)
 Inductive case :=
 | CRun (n : Z) (thr : nat) (members : list (Z * Z)) (gsk : Z) (existed : bool) (hs : list Z) (pr : nat)
+       (* messages replayed by round1.Start in the order the node processed them, outcome of each,
+          party end after the replay *)
+       (fut : list (Z * nat * pt Z * pt Z)) (fobs : list N) (fterm : N)
        (msgs : list (Z * nat * pt Z * pt Z)) (obs : list (N * N)) (admitted : list Z)
-       (rec : bool) (gs rs : Z).
+       (rec : bool) (gs rs : Z)
+  (* classes of the top-level guards of round1.Update in source order, as read from the AST *)
+| CGuards (codes : list N).
+
+(* the guards of [r1_update] in the order the model applies them: message type (the model is typed),
+   checkBlockExisted, key lookup, data hash = block hash, VerifySign, beacon share nil, beacon share
+   verifies, AddWitnessSign refused, both signatures recovered *)
+Definition guard_order : list N := [0; 1; 2; 3; 4; 5; 6; 7; 8]%N.
+
+Fixpoint nlist_eqb (a b : list N) : bool :=
+  match a, b with
+  | [], [] => true
+  | x :: a', y :: b' => (x =? y)%N && nlist_eqb a' b'
+  | _, _ => false
+  end.
 
 Definition mk_msg (m : Z * nat * pt Z * pt Z) : @msg Z nat :=
   let '(s, d, a, b) := m in Msg s d a b.
 
 Definition check (c : case) : bool :=
   match c with
-  | CRun n thr members gsk existed hs pr msgs obs admitted rec gs rs =>
+  | CRun n thr members gsk existed hs pr fut fobs fterm msgs obs admitted rec gs rs =>
       let e := Env 0%nat pr members thr existed gsk in
-      let '(pf, l) := zparty_run r hs true e (map mk_msg msgs) in
+      let '(ps0, l0, t0) := zparty_start r hs true e (map mk_msg fut) in
+      let '(pf, l) := zparty_run_from r hs true e ps0 (map mk_msg msgs) in
       let st := p_st pf in
       (group_k n =? Z.of_nat thr)
+      && nlist_eqb (map ocode l0) fobs && (tcode t0 =? fterm)%N
       && obs_eqb l obs
       && zlist_eqb (map fst (g_map (st_g st))) admitted
       && zlist_eqb (map fst (g_map (st_r st))) admitted
@@ -59,4 +78,5 @@ Definition check (c : case) : bool :=
          | None, None => negb rec
          | _, _ => false
          end
+  | CGuards codes => nlist_eqb codes guard_order
   end.
